@@ -193,3 +193,50 @@ func hugeCases(seed int64, flat bool, f func(tag string, ty *Ty, h *hugeInput)) 
 		}
 	}
 }
+
+type tyData struct {
+	ty   *Ty
+	data []byte
+}
+
+// manyElemCases: valid encodings of lists with 4095 .. 5000 variable-size elements (mostly
+// empty, a few with content), and one with an offset word damaged late in the table
+func manyElemCases() []tyData {
+	u8 := &Ty{Kind: "u", N: 1}
+	var out []tyData
+	for _, et := range []*Ty{{Kind: "list", Elem: u8, N: 4}, {Kind: "bitlist", N: 9}, {Kind: "cont", Fields: []*Ty{u8, {Kind: "list", Elem: u8, N: 3}}}} {
+		for _, n := range []int{4095, 4096, 4097, 5000} {
+			if !thorough() && n != 4097 && et.Kind != "list" {
+				continue
+			}
+			ty := &Ty{Kind: "list", Elem: et, N: 1 << 20}
+			var body []byte
+			offs := make([]byte, 0, 4*n)
+			for i := 0; i < n; i++ {
+				off := uint32(4*n + len(body))
+				offs = append(offs, byte(off), byte(off>>8), byte(off>>16), byte(off>>24))
+				switch et.Kind {
+				case "list":
+					if i%97 == 0 {
+						body = append(body, byte(i), 7)
+					}
+				case "bitlist":
+					body = append(body, 1+byte(i%2)<<1|byte(i%2))
+				default:
+					body = append(body, byte(i), 5, 0, 0, 0)
+					if i%50 == 0 {
+						body = append(body, 9)
+					}
+				}
+			}
+			data := append(offs, body...)
+			out = append(out, tyData{ty, data})
+			if n == 4097 {
+				bad := append([]byte{}, data...)
+				bad[4*4096] ^= 0x40
+				out = append(out, tyData{ty, bad})
+			}
+		}
+	}
+	return out
+}
